@@ -62,8 +62,13 @@ func VerifH_C10_Publish() {
 		cli.Publish(ctx, &Message{Topic: "a", QoS: QoS0, Payload: []byte{1, 2, 3}})
 		done <- struct{}{}
 	}()
+	big := []byte{4, 5}
+	if verifChoice("bigpayload", 2) == 1 {
+		big = make([]byte, 20000) // larger than any internal buffer or "small packet" threshold
+		big[0], big[19999] = 4, 5
+	}
 	go func() {
-		cli.Publish(ctx, &Message{Topic: "b", QoS: QoS1, Payload: []byte{4, 5}})
+		cli.Publish(ctx, &Message{Topic: "b", QoS: QoS1, Payload: big})
 		done <- struct{}{}
 	}()
 	conn.inject(refEncodePublish([]byte("t"), 9, 1, false, false, []byte{7}))
